@@ -23,3 +23,10 @@ claim("C11",
   "Rules run: C11/T1..T6. Assumes (A1) error results of functions outside the module do not embed their arguments, external methods do not stash arguments in their receiver, the device does not echo secrets, user loggers/callbacks/transports are outside the library. Context-insensitive and field-based: may only over-approximate flows (0 spurious hits on the pinned tree). Trusted: go/ssa, VTA call graph.",
   "interprocedural field-based taint analysis on SSA with a flag-guarded gate model",
   "DESIGN.md section 4, C11")
+
+claim("C20",
+  "Decides, for every interleaving of producer and consumer at once (no schedule is enumerated), the data-race, deadlock and non-blocking halves of the property and the structural half of the FIFO clause: must-held lockset dataflow shows every access to the chunk list and depth holds the queue lock (write lock for writes); the depth mailbox is a 1-slot channel primed once and every receive is followed on all paths by exactly one send with no lock acquisition or other channel operation while the token is held (fixed lock->token order: no deadlock, empty queue never blocks); every critical section that changes the list also stores depth and republishes it; Dequeue/DequeueAll return nil on zero depth before locking and never index an empty list; who-may-call keeps one producer and one consumer; Enqueue appends at the tail, Requeue builds [b]++list, Dequeue returns element 0 and keeps list[1:], DequeueAll joins then resets, depth moves by +1/+1/-1/=0. "
+  "Byte-for-byte equality under stress is not measured: it is the consequence of these shape rules for the single-producer/single-consumer roles.",
+  "Rules run: C20/locked, token, republish, non-blocking-empty, roles, fifo-shape. Trusted: go/ssa, Go memory model for sync.RWMutex and channels. A re-implementation of the queue with a different data layout would make fifo-shape report (the recognisers accept append/slice/bytes.Join forms only).",
+  "must-held lockset dataflow + channel token discipline (path queries on SSA CFG) + shape recognisers",
+  "DESIGN.md section 4, C20")
